@@ -24,10 +24,10 @@ import (
 )
 
 type errSwallow struct {
-	pkg, fn string // function (display name without package path)
-	callee  string // suffix of the callee whose error may be dropped
+	pkg, fn  string // function (display name without package path)
+	callee   string // suffix of the callee whose error may be dropped
 	sentinel string // required sentinel comparison on the path ("" = none)
-	why     string
+	why      string
 }
 
 var errSwallowOK = []errSwallow{
@@ -42,7 +42,7 @@ type errPropRule struct {
 }
 
 func (r *errPropRule) Inline(fn *ssa.Function) bool { return false }
-func (r *errPropRule) PredOK(k string) bool          { return true }
+func (r *errPropRule) PredOK(k string) bool         { return true }
 
 // sigma: "" nothing pending, else "<callee>|<pos>|<sentinels seen>"
 func (r *errPropRule) OnBranch(e *Engine, st *State, fc *FrameCtx, in *ssa.If, taken bool) {
